@@ -124,4 +124,10 @@ CHECKS = {
         "assumptions": ["sufficient lock-set condition, not a happens-before analysis", "guard table transcribed from struct comments; constructor writes before publication exempt",
                         "atomic-only types (ChanCaster, ChanPubSub counters) are race-free by construction of sync/atomic; their hand-off edges are exercised by the interleaving harnesses of C06-C08"],
     },
+    "C04": {
+        "explanation": "The real Buffer.cleanup goroutine (WaitCond loop, cooldown closure, timer goroutine) with a counting cleaner: a state change arriving at an arbitrary moment (also during the cooldown) is re-examined by the cleaner before quiescence, under every interleaving with the timer firing at an arbitrary moment (T=24); every mutator (Put, NewConsumer, commit, delete) wakes a waiter parked on the buffer's cond; one cleanupLogic step with FixedBufferCleaner(max, target<=max) leaves len <= max.",
+        "quick": [sched("Harness_C04_cleaner_recheck", 24), sched("Harness_C04_broadcast_on_change", 14), seq("Harness_C03_fixed_step")],
+        "thorough": [],
+        "assumptions": ["'bounded delay' is checked as quiescence (no reachable state where nothing can run and the change has not been re-examined)", "timer may fire at any moment after it is armed"],
+    },
 }
